@@ -183,8 +183,9 @@ def nontrivial_pair(case) -> bool:
 # --------------------------------------------------------------------------
 
 
-def _lenient_den(R: ttb.sptensor):
-    """Expand a sparse result whose only problem is a float-typed (but integer-valued, in-range) subscript array."""
+def _lenient_den(R: ttb.sptensor, ignore_vals: bool = False):
+    """Expand a sparse result whose subscript array is float-typed (but integer-valued, in range, distinct);
+    ignore_vals: every subscript row counts as 1 (boolean results whose value column has the wrong length)."""
     subs = np.asarray(R.subs)
     shape = tuple(int(n) for n in R.shape)
     A = np.zeros(shape)
@@ -195,9 +196,14 @@ def _lenient_den(R: ttb.sptensor):
     isubs = subs.astype(int)
     if (isubs < 0).any() or (isubs >= np.array(shape)[None, :]).any():
         return None
-    vals = np.asarray(R.vals).reshape(-1)
-    if vals.size != isubs.shape[0] or len({tuple(r) for r in isubs.tolist()}) != isubs.shape[0]:
+    if len({tuple(r) for r in isubs.tolist()}) != isubs.shape[0]:
         return None
+    if ignore_vals:
+        vals = np.ones(isubs.shape[0])
+    else:
+        vals = np.asarray(R.vals).reshape(-1)
+        if vals.size != isubs.shape[0]:
+            return None
     for r, v in zip(isubs, vals):
         A[tuple(r)] = v
     return A
@@ -214,7 +220,7 @@ def problem_kinds(problems: Sequence[str]) -> str:
     return "+".join(sorted(out))
 
 
-def check_result(ctx, name: str, tagstr: str, R, expect: np.ndarray, info="") -> None:
+def check_result(ctx, name: str, tagstr: str, R, expect: np.ndarray, info="", boolean: bool = False) -> None:
     """Clauses `<name>:returns-tensor|shape|wellformed(<how>)|values [tags]` for one returned object.
 
     expect: the NumPy result on the expanded arrays (bool -> 0/1).  Explicitly stored zeros are allowed (they
@@ -234,9 +240,12 @@ def check_result(ctx, name: str, tagstr: str, R, expect: np.ndarray, info="") ->
         probs = ref.sptensor_problems(R, allow_explicit_zero=True)
         if probs:
             ctx.check(False, f"{name}:wellformed({problem_kinds(probs)}){sfx}", f"{probs} {info}")
-            if [p for p in probs if not p.startswith("subs-dtype")]:
+            rest = [p for p in probs if not p.startswith("subs-dtype")]
+            if rest and not (boolean and all(p.startswith("one-value-per-subscript") for p in rest)):
                 return
-            got = _lenient_den(R)
+            # still judge the positions: float-typed integral subscripts are read as integers, and a
+            # comparison / logical result (every stored value means "true") is read from its subscripts alone
+            got = _lenient_den(R, ignore_vals=bool(rest))
             if got is None:
                 return
         else:
@@ -259,7 +268,7 @@ def run_op(ctx, name: str, tagstr: str, fn, expect_fn, info="") -> None:
         return
     with np.errstate(all="ignore"):
         expect = expect_fn()
-    check_result(ctx, name, tagstr, R, expect, info)
+    check_result(ctx, name, tagstr, R, expect, info, boolean=name.split("/")[0] in COMPARE + LOGIC + ("not",))
 
 
 # --------------------------------------------------------------------------
